@@ -118,36 +118,44 @@ def dashIndex : Bytes → Option Nat
   | [] => none
   | c :: r => if c = 45 then some 0 else (dashIndex r).map (· + 1)
 
+/-- the last-byte-pos part of `parseInit`: `p` is the text after the `-`, `off` the first-byte-pos already parsed -/
+def parseLast (off : Int) (p : Bytes) : SpecParse :=
+  match parseOffset p with
+  | none => .invalid
+  | some last =>
+    if !known last then .invalid
+    else if last < off then .invalid                 -- RFC 2616 s14.35.1 MUST: last-byte-pos >= first-byte-pos
+    else match add64 last 1 with                     -- `HttpRange aSpec(offset, last_pos + 1)`
+      | .error f => .fault f
+      | .ok e =>
+        match (HttpRange.mk off e).size with         -- `length = aSpec.size()`
+        | .error f => .fault f
+        | .ok len => .ok ⟨off, len⟩
+
+/-- the branch of `parseInit` for items not starting with `-`, once the first `-` was found at index `k < flen` -/
+def parseFirst (field : Bytes) (flen k : Nat) : SpecParse :=
+  match parseOffset field with
+  | none => .invalid
+  | some off =>
+    if !known off then .invalid
+    else if k + 1 < flen then parseLast off (field.drop (k + 1))   -- "do we have last-pos ?"
+    else .ok ⟨off, Unknown⟩                                        -- trailer
+
+/-- the suffix-byte-range-spec branch: `rest` is the text after the leading `-` -/
+def parseSuffix (rest : Bytes) : SpecParse :=
+  match parseOffset rest with
+  | none => .invalid
+  | some len => if known len then .ok ⟨Unknown, len⟩ else .invalid
+
 /-- `HttpHdrRangeSpec::parseInit(field, flen)`; `field` is the text from the start of the item to the end of the header -/
 def parseSpec (field : Bytes) (flen : Nat) : SpecParse :=
   if flen < 2 then .invalid else
   match field with
-  | 45 :: rest =>                                  -- suffix-byte-range-spec
-    match parseOffset rest with
-    | none => .invalid
-    | some len => if known len then .ok ⟨Unknown, len⟩ else .invalid
+  | 45 :: rest => parseSuffix rest                 -- `*field == '-'`
   | _ =>
-    match dashIndex field with
-    | none => .invalid                             -- no '-' at all
-    | some k =>
-      if ¬ (k < flen) then .invalid                -- the '-' belongs to a later item
-      else match parseOffset field with
-        | none => .invalid
-        | some off =>
-          if !known off then .invalid
-          else if k + 1 < flen then                -- there is a last-byte-pos
-            match parseOffset (field.drop (k + 1)) with
-            | none => .invalid
-            | some last =>
-              if !known last then .invalid
-              else if last < off then .invalid
-              else match add64 last 1 with         -- `HttpRange aSpec(offset, last_pos + 1)`
-                | .error f => .fault f
-                | .ok e =>
-                  match (HttpRange.mk off e).size with
-                  | .error f => .fault f
-                  | .ok len => .ok ⟨off, len⟩
-          else .ok ⟨off, Unknown⟩                   -- trailer
+    match dashIndex field with                     -- `strchr(field, '-')`
+    | none => .invalid
+    | some k => if k < flen then parseFirst field flen k else .invalid   -- "must have a '-' somewhere in _this_ field"
 
 /-- the common tail of `HttpHdrRangeSpec::canonize`: "we have a range now, adjust length if needed" -/
 def canonizeTail (offset length clen : Int) : Except Fault (Spec × Bool) :=
